@@ -452,6 +452,7 @@ type originGen struct {
 	byteRanges  bool
 	bframes     bool
 	multiFrag   bool
+	minFrags    int // with multiFrag: at least this many fragments per fMP4 segment
 	bigBases    bool
 	unsupported bool // add tracks with codecs gohlslib has no decoder for (C13)
 	fastLive    bool
@@ -666,6 +667,9 @@ func genStubOrigin(r *Run, g *originGen) *stubOrigin {
 			sg := &sSeg{idx: i, dur: segDur, first: make([]int, len(st.tracks)), count: make([]int, len(st.tracks)), frags: 1}
 			if g.multiFrag && st.container == "fmp4" {
 				sg.frags = Pick(T, 1, 1, 2, 3, 7, 10, 11, 14, 24)
+				if sg.frags < g.minFrags {
+					sg.frags = g.minFrags + T.Intn(6)
+				}
 			}
 			for ti, t := range st.tracks {
 				f, c := -1, 0
